@@ -90,6 +90,8 @@ FIXED = [
     ("C07", "352e87d", "break/continue out of a try block left its handler registered (a later throw landed in the stale catch); break ran the finally of a try that encloses the loop; a throw from a catch clause skipped finally"),
     ("C04", "352e87d", "`function f(){ try { return 1 } finally { return 2 } }` made the compiler recurse until RecursionError escaped eval"),
     ("C02", "850fde3", "`for(var i=0;i<3000;i++){ try { throw 1 } finally { continue } }` grew the operand stack by one slot per iteration until MemoryLimitError: the exception waiting to be rethrown was abandoned on the stack (found by obligation O13)"),
+    ("C09", "7133da3", "`/(?=\\d)x/.test('ax')` was true and `(?=(a*)*b)` spun until the backtrack stack overflowed: the lookahead and lookbehind sub-matchers skipped every opcode they did not know (54 findings, one per opcode and sub-matcher)"),
+    ("C10", "7133da3", "the lookaround sub-matchers ignored the zero-advance guards of * and +"),
     ("C04", "5541b57", "`a.reduce(function(acc,x){a.pop();return acc+x})` (and reduceRight) let a raw IndexError escape: the loop bound was computed before the callbacks ran"),
 ]
 
